@@ -97,18 +97,67 @@ fn item_list(tier: &str) -> Vec<(String, i64, &'static str)> {
     let sc = scope(tier);
     let mut v = Vec::new();
     for t in TARGETS { for n in &sc.fdnums { for w in ["K", "E"] { v.push((t.to_string(), *n, w)); } } }
+    // host /proc states other than "normal" (the worker's /proc is the jail's): a tmpfs over all of /proc, and a directory of
+    // look-alike links bind-mounted over /proc/<pid>/fd and /proc/<pid>/task/<tid>/fd. Worker kinds: callers that get a private
+    // procfs (K, E, and K on a kernel whose fsconfig refuses hidepid=/subset=) - for them nothing may change - and a caller
+    // without the new mount API, for whom the mounts may only turn the call into an error.
+    for t in ["f", "d"] {
+        for w in ["K+tmpfs-proc", "E+tmpfs-proc", "K-oldfsconfig+tmpfs-proc", "K+fd-overmount", "E+fd-overmount", "K-oldfsconfig+fd-overmount", "K-nomountapi+fd-overmount"] {
+            v.push((t.to_string(), 64, w));
+        }
+    }
     v
 }
 
 pub fn n_items(tier: &str) -> usize { item_list(tier).len() }
 
 pub fn run_item(tier: &str, idx: usize, only: Option<&Value>) -> MResult<ItemResult> {
+    let (target, fdnum, wkind) = item_list(tier)[idx].clone();
+    match run_item_inner(tier, idx, only) {
+        // with a disturbed host /proc even the preparatory calls (resolve, try_clone) may kill the process: that is a finding about
+        // the library, not about the machinery
+        Err(Mach(m)) if m.contains("died") && wkind.contains('+') => {
+            let mut res = ItemResult::default();
+            res.evaluations = 1; res.nontrivial = 1;
+            res.violate(format!("{}:crash:setup", wkind), format!("{} handle to {} at descriptor {}: the calling process died during the preparatory library calls ({})", wkind, target, fdnum, m),
+                json!({"engine": "handlemc", "item": idx, "target": target, "fd": fdnum, "worker": wkind}));
+            Ok(res)
+        }
+        r => r,
+    }
+}
+
+fn run_item_inner(tier: &str, idx: usize, only: Option<&Value>) -> MResult<ItemResult> {
     let sc = scope(tier);
     let (target, fdnum, wkind) = item_list(tier)[idx].clone();
     let mut res = ItemResult::default();
     enter_jail()?;
     crate::lookup::build_decoys()?;
-    let mut w = if wkind == "K" { Wk::kernel()? } else { Wk::emulated()? };
+    let (wbase, hoststate) = match wkind.split_once('+') { Some((a, b)) => (a, b), None => (wkind, "normal") };
+    if hoststate == "tmpfs-proc" {
+        // everything below the jail's /proc disappears behind an empty tmpfs
+        let (src, tgt, typ) = (cs("tmpfs"), cs(&format!("{}/proc", JAIL)), cs("tmpfs"));
+        if unsafe { libc::mount(src.as_ptr(), tgt.as_ptr(), typ.as_ptr(), 0, std::ptr::null()) } != 0 { return mach(format!("mount tmpfs over the jail's /proc: errno {}", errno())); }
+    }
+    let mut w = match wbase {
+        "K" => Wk::kernel()?,
+        "E" => Wk::emulated()?,
+        "K-oldfsconfig" => Wk::spawn(wkind, &Setup { jail: JAIL.into(), deny: vec!["fsconfig_set_string".into()], ..Default::default() })?,
+        "K-nomountapi" => Wk::spawn(wkind, &Setup { jail: JAIL.into(), deny: vec!["fsopen".into(), "open_tree".into()], ..Default::default() })?,
+        o => return mach(format!("unknown worker kind {}", o)),
+    };
+    let private_procfs = wbase != "K-nomountapi";
+    if hoststate == "fd-overmount" {
+        // before the library is used for the first time (an open_tree clone would copy the mounts that exist at that moment)
+        let pid = w.one(Op::new("getpid"))?.ret.unwrap_or(0);
+        let dec = format!("{}/fd-lookalikes", JAIL);
+        let _ = std::fs::create_dir_all(&dec);
+        for n in 0..1100 { let _ = std::os::unix::fs::symlink("/w/outer/parent/secret", format!("{}/{}", dec, n)); }
+        for t in [format!("{}/proc/{}/fd", JAIL, pid), format!("{}/proc/{}/task/{}/fd", JAIL, pid, pid)] {
+            let (src, tgt) = (cs(&dec), cs(&t));
+            if unsafe { libc::mount(src.as_ptr(), tgt.as_ptr(), std::ptr::null(), libc::MS_BIND, std::ptr::null()) } != 0 { return mach(format!("bind look-alikes over {}: errno {}", t, errno())); }
+        }
+    }
     let root_out = out(ROOT_IN);
     // keep the Root's own descriptor away from the numbers under test
     w.one(Op::new("root_at_fd").root(ROOT_IN).num(800))?;
@@ -119,7 +168,7 @@ pub fn run_item(tier: &str, idx: usize, only: Option<&Value>) -> MResult<ItemRes
     // histories of non-file targets are kept to length <= 1 in the quick tier
     let maxlen = if sc.th { if matches!(target.as_str(), "f" | "d") { 5 } else { 3 } } else if matches!(target.as_str(), "f" | "d" | "full") { 3 } else { 2 };
     for (hi, h) in sc.hist.iter().enumerate() {
-        if h.len() > maxlen { continue; }
+        if h.len() > maxlen || (hoststate != "normal" && h.len() > 1) { continue; }
         if let Some(o) = only { if o["history_index"].as_u64() != Some(hi as u64) { continue; } }
         clear_dir(&root_out)?;
         // leftovers of "move out" steps
@@ -144,7 +193,18 @@ pub fn run_item(tier: &str, idx: usize, only: Option<&Value>) -> MResult<ItemRes
                 let mut op = Op::new("reopen").handle("h").flags(fl);
                 if api == "c" { op = op.capi(); }
                 if let Some(o) = only { let want: Op = serde_json::from_value(o["op"].clone()).map_err(|e| Mach(e.to_string()))?; if want != op { continue; } }
-                let obs = w.one(op.clone())?;
+                let obs = match w.one(op.clone()) {
+                    Ok(o) => o,
+                    Err(Mach(m)) if m.contains("died") => {
+                        // the process is gone (abort, stack overflow, ...): a violation, not a machinery problem; the item ends here
+                        let st = w.exit_signal();
+                        res.violate(format!("{}:crash:sig{}", wkind, st), format!("{} handle to {} at descriptor {} after history {:?}: {}: the calling process died (signal {}) instead of getting a result", wkind, target, fdnum, h, op.brief(), st),
+                            json!({"engine": "handlemc", "item": idx, "history_index": hi, "history": format!("{:?}", h), "target": target, "fd": fdnum, "worker": wkind, "op": op}));
+                        res.states = states.len() as u64;
+                        return Ok(res);
+                    }
+                    Err(e) => return Err(e),
+                };
                 res.evaluations += 1;
                 res.transitions += 1;
                 let creation = fl & (O_CREAT | O_EXCL) != 0 || fl & (O_TMPFILE & !O_DIRECTORY) != 0;
@@ -175,6 +235,8 @@ pub fn run_item(tier: &str, idx: usize, only: Option<&Value>) -> MResult<ItemRes
                         else if fd.getfl & GETFL_MASK != *g { res.violate(format!("{}:flags", wkind), format!("{}: F_GETFL 0x{:x}, expected 0x{:x}", desc, fd.getfl & GETFL_MASK, g), replay); }
                         else if !fd.cloexec { res.violate(format!("{}:no-cloexec", wkind), format!("{}: result is not close-on-exec", desc), replay); }
                     }
+                    (Err(_), false) if !private_procfs => {}
+                    (Ok(_), false) if !private_procfs => { res.count("overmount_turned_into_error", 1); }
                     (Err(e), false) => { if obs.errno != Some(*e) { res.violate(format!("{}:errno:want={}:got={}", wkind, errname(*e), klass(&obs)), format!("{}: failed with {} ({}), the kernel's answer for this inode and flags is {}", desc, klass(&obs), obs.msg.clone().unwrap_or_default(), errname(*e)), replay); } }
                     (Ok(_), false) => { res.violate(format!("{}:fails:fd{}:{}", wkind, if fdnum == 0 { "0" } else { "N" }, klass(&obs)), format!("{}: failed with {} ({}) although re-opening this inode with these flags works", desc, klass(&obs), obs.msg.clone().unwrap_or_default()), replay); }
                     (Err(e), true) => { res.violate(format!("{}:unexpected-success:{}", wkind, errname(*e)), format!("{}: succeeded, the kernel's answer is {}", desc, errname(*e)), replay); }
